@@ -1640,6 +1640,11 @@ class Exec:
             if name == 'data': return obj
         if isinstance(obj, str):
             if name in ('c_str', 'data', 'str'): return obj
+            if name == 'substr':
+                a = [_i(x) for x in args]
+                if all(isinstance(x, int) for x in a) and a and 0 <= a[0] <= len(obj):
+                    return obj[a[0]:] if len(a) == 1 else obj[a[0]:a[0] + a[1]]
+                raise Unsupported('substr%r on a string of length %d' % (tuple(a), len(obj)))
             if name in ('size', 'length'): return len(obj)
             if name == 'empty': return len(obj) == 0
         if hasattr(obj, 'call'):
